@@ -13,6 +13,7 @@ import ObiVerif.Lemmas.PEAnnot
 import ObiVerif.Lemmas.PEFastArena
 import ObiVerif.Lemmas.PESide
 import ObiVerif.Lemmas.PEBound
+import ObiVerif.Model.PECli
 /-!
 # C08 — paired-end assembly: valid path, optimal score, correct consensus (property theorems)
 
@@ -913,6 +914,69 @@ example : (bd_NoOverflow (fun i j => if i = j then (2 : Int) else -1) (cALeft (-
       (Mf (fun i j => if i = j then 2 else -1) (cALeft (-3)) (cBLeft (-3) 3) 3)) :=
   (int_model_valid (fun i j => if i = j then 2 else -1) (-3) 3 3 (by decide) (by decide)
     (fun i j _ _ => by split <;> decide) (by decide)).1.1
+
+
+/-! ### the `obipairing` command line -/
+
+/-- the defaults of `options.go`: delta 5, min-overlap 20, min-identity 0.9, gap penalty 2.0, scale 1.0,
+statistics on, fast mode on, relative 4-mer score -/
+theorem cli_defaults :
+    cliParse [] {} = some ⟨5, 20, 9, 10, "2.0", "1.0", true, true, true⟩ := rfl
+
+-- which option sets which parameter is tied case by case through the real option parser (op `cl` of the
+-- harness: every option alone in both spellings, then random combinations); string parsing does not reduce in
+-- the kernel, so no `decide` test here.
+
+/-- **`--fast-absolute` and `--delta` have no action in exact mode** (`options.go`: "no action in exact mode"):
+with `--exact-mode` the record and all its annotations are the same for every value of the two options -/
+theorem cli_exact_mode_ignores_fast_options (o : CliOpts) (r : Bool) (d : Nat) (s : Nat → Nat → Int) (g : Int)
+    (adj : UInt8 → UInt8) (a qa b qb : Bytes) (ar : Arena) :
+    cliAssemble { o with fast := false, rel := r, delta := d } s g adj a qa b qb ar =
+      cliAssemble { o with fast := false } s g adj a qa b qb ar := by
+  simp [cliAssemble]
+
+/-- **assemble or join** at the command level: the record is the consensus (mode `alignment`) exactly when the
+aligned length reaches `--min-overlap` and the identity reaches `--min-identity`; otherwise it is A, ten dots,
+B (mode `join`); the two thresholds have no other effect (`PEAlign` and the consensus do not see them), and
+raising `--min-overlap` can only turn an alignment into a join -/
+theorem cli_assemble_or_join (o : CliOpts) (s : Nat → Nat → Int) (g : Int) (adj : UInt8 → UInt8) (a qa b qb : Bytes)
+    (ar : Arena) (asm : Assembled) (ann : List (String × String))
+    (h : cliAssemble o s g adj a qa b qb ar = some (asm, ann)) :
+    ∃ r c, asm = assemble a qa b qb o.minOverlap o.idn o.idd r c ∧
+      (asm.alignment = true ↔
+        ((c.seq.length : Int) - (endRuns r.path).1.natAbs - (endRuns r.path).2.natAbs ≥ o.minOverlap ∧
+         identityOK c.nmatch ((c.seq.length : Int) - (endRuns r.path).1.natAbs - (endRuns r.path).2.natAbs) o.idn o.idd = true)) ∧
+      (asm.alignment = false → asm.seq = a ++ List.replicate 10 46 ++ b) ∧
+      (∀ mo', o.minOverlap ≤ mo' → (assemble a qa b qb mo' o.idn o.idd r c).alignment = true → asm.alignment = true) := by
+  unfold cliAssemble at h
+  simp only at h
+  split at h
+  · rename_i r hr
+    split at h
+    · rename_i c hc
+      simp only [Option.some.injEq, Prod.mk.injEq] at h
+      obtain ⟨rfl, _⟩ := h
+      have hsc := stats_consistent a qa b qb o.minOverlap o.idn o.idd r c
+      simp only at hsc
+      refine ⟨r, c, rfl, hsc.2.2.2.1, fun hj => (hsc.2.2.2.2.2 hj).1, ?_⟩
+      intro mo' hmo h'
+      have hsc' := stats_consistent a qa b qb mo' o.idn o.idd r c
+      simp only at hsc'
+      have := hsc'.2.2.2.1.mp h'
+      exact hsc.2.2.2.1.mpr ⟨by omega, this.2⟩
+    · cases h
+  · cases h
+
+/-- **`--without-stat`**: the record carries `mode` and, in alignment mode, what `PEAlign` /
+`BuildQualityConsensus` wrote on the consensus (`pairing_mismatches`, `paring_fast_*` in fast mode) — no
+`score`, `ali_length`, `ali_dir`, `seq_a_single`, `seq_b_single`, `seq_ab_match`, `score_norm` -/
+theorem cli_without_stat_keys (fast : Bool) (v : Vote) (ovr : Int) (asm : Assembled) (mm : List (String × Nat)) :
+    (annotEntriesS false fast v ovr asm mm).map (·.1) =
+      ["mode"] ++ (if asm.alignment ∧ ¬ mm.isEmpty then ["pairing_mismatches"] else []) ++
+      (if asm.alignment ∧ fast then ["paring_fast_count", "paring_fast_overlap", "paring_fast_score"] else []) ∧
+    annotEntriesS true fast v ovr asm mm = annotEntries fast v ovr asm mm := by
+  refine ⟨?_, rfl⟩
+  cases hA : asm.alignment <;> cases fast <;> cases hm : mm.isEmpty <;> simp [annotEntriesS, hA, hm]
 
 
 end ObiVerif.Props.C08
